@@ -178,7 +178,12 @@ def _row_resolve_ensures(C, res):
                                                  row.queryLength == me.queryLength, row.referenceLength == me.referenceLength))),
             ('joined_row_has_at_most_two_segments_each_the_first_segment_of_a_part_or_rebuilt_from_a_subsequence_of_it',
              z3.And(R.len <= 2, z3.ForAll([T], body) if C.proving else z3.ForAll([T], body, patterns=[z3.Select(R.v.arrs[0], T)]))),
-            ('confidence_is_the_sum_of_the_segment_scores', row.confidence == e.score_sum(R.v, 'segmentScore'))]
+            ('confidence_is_the_sum_of_the_segment_scores', row.confidence == e.score_sum(R.v, 'segmentScore'))] + \
+        ([('the_record_that_starts_first_on_the_reference_is_the_left_operand_and_both_results_are_kept', z3.And(
+            z3.If(me.alignedPairs[0].reference.position < rest.alignedPairs[0].reference.position,
+                  z3.And(C.F.pair.leftSegment.ref == first.ref, C.F.pair.rightSegment.ref == second.ref),
+                  z3.And(C.F.pair.leftSegment.ref == second.ref, C.F.pair.rightSegment.ref == first.ref)),
+            R.len == 2, a[R.off].ref == C.F.seg1.ref, a[R.off + 1].ref == C.F.seg2.ref))] if C.proving else [])
 
 
 rowResolve = FunctionSpec(
